@@ -81,8 +81,8 @@ def tree_step(t, op):
     flagged = k != "M" and above >= 2
     t[p].discard(k)
     has_children = any(len(q) == len(p) + 1 and q[:len(p)] == p for q in t)
-    if not (t[p] & set("123")) and not has_children and p != ():
-        del t[p]          # fix f5fe3276: only an empty leaf below the root is destroyed
+    if not t[p] and not has_children and p != ():
+        del t[p]          # fixes f5fe3276, 71f8bd70: only a leaf below the root with no interface left (manager included) is destroyed
     return flagged
 
 
@@ -209,7 +209,7 @@ LEVEL_TEXT = ("Theorems in coq/theories/Properties/C25.v over ALL histories: in 
               "manager's listing — for every history outside ONE decidable class (nested managers); inside it a concrete history "
               "refutes the full statement. The class repaired by f5fe3276 (silent subtree deletion) is now inside the theorem "
               "(C25_repaired_history). The model is tied to the code by running every short history and random long ones on the real "
-              "ObjectServer with a real client on the peer connection, comparing signals, replayed views and GetManagedObjects "
+              "ObjectServer (code after fixes f5fe3276, 71f8bd70) with a real client on the peer connection, comparing signals, replayed views and GetManagedObjects "
               "replies after every op.")
 LEVEL_NOTE = ("partial: still refuted for nested managers — only the nearest ancestor manager emits, an outer manager's listing still "
               "contains the object; C25_sync_partial covers all other histories (including removals below a manager, removal and "
